@@ -438,6 +438,42 @@ func entries() []entry {
 			}
 			return d.Bytes(), herr
 		}},
+		{"ReadData/behind-150-pings-between-fragments", func(c ctlCase) ([]byte, error) {
+			// a long run of control frames inside one message: each is answered, the 151st like the first
+			mk := func(op byte, fin bool, p []byte) []byte {
+				return refmodel.Frame{H: refmodel.Hdr{Fin: fin, Op: op, Masked: c.side == streams.Server, Mask: srcMask}, Payload: p}.Wire()
+			}
+			data := mk(2, false, []byte("x"))
+			for i := 0; i < 150; i++ {
+				data = append(data, mk(9, true, []byte{byte(i)})...)
+			}
+			data = append(data, mk(c.op, true, c.payload)...)
+			data = append(data, mk(0, true, []byte("y"))...)
+			d := env.NewDst()
+			var p []byte
+			var err error
+			if c.side == streams.Server {
+				p, _, err = wsutil.ReadClientData(env.RW{Reader: bytes.NewReader(data), Writer: d})
+			} else {
+				p, _, err = wsutil.ReadServerData(env.RW{Reader: bytes.NewReader(data), Writer: d})
+			}
+			if err == nil && string(p) != "xy" {
+				return nil, fmt.Errorf("harness: message payload %q", p)
+			}
+			frames, rest := drivers.ParseFrames(d.Bytes())
+			if len(rest) != 0 || len(frames) < 150 {
+				return nil, fmt.Errorf("harness: %d whole reply frames (+%d stray bytes) for 150 pings; err=%v", len(frames), len(rest), err)
+			}
+			skip := 0
+			for i := 0; i < 150; i++ {
+				f := frames[i]
+				if f.H.Op != 10 || len(f.Payload) != 1 || f.Payload[0] != byte(i) {
+					return nil, fmt.Errorf("harness: reply %d is %v %x", i, f.H, f.Payload)
+				}
+				skip += len(f.Wire())
+			}
+			return d.Bytes()[skip:], err
+		}},
 		{"Handle/source-is-the-connection", func(c ctlCase) ([]byte, error) {
 			// "The intentional way to use it is to read the next frame header from the connection ...
 			// and pass it to Handle()": the source is the connection itself, on which the next frame
